@@ -282,6 +282,12 @@ def st_module():
                 if draw(st.booleans()):
                     b.add('    cv = 1')
                     gen_docstring(draw, b, 4, 'attr', [], not clean)
+                if draw(st.integers(0, 2)) == 0:
+                    # a subclass that overrides the method without a docstring of its own inherits the one above: its problems
+                    # are problems of that docstring (same file, same lines), reported once
+                    b.add('class D%d(C%d):' % (oi, oi))
+                    b.add('    def m(self, a):')
+                    b.add('        pass')
         broken_value = (not clean) and draw(st.integers(0, 6)) == 0
         if broken_value:
             b.add('NBSP_CONSTANT = "a\\xa0b"')
